@@ -1042,8 +1042,10 @@ char * SCPI_dtostre(double __val, char * __s, size_t __ssize, unsigned char __pr
         } else {
             strcpy(s, (__flags & SCPI_DTOSTRE_UPPERCASE) ? "INF" : "inf");
         }
-        strncpy(__s, buffer, __ssize);
-        __s[__ssize - 1] = '\0';
+        if (__ssize > 0) {
+            strncpy(__s, buffer, __ssize);
+            __s[__ssize - 1] = '\0';
+        }
         return __s;
     }
 
@@ -1096,8 +1098,10 @@ char * SCPI_dtostre(double __val, char * __s, size_t __ssize, unsigned char __pr
         }
     }
 
-    strncpy(__s, buffer, __ssize);
-    __s[__ssize - 1] = '\0';
+    if (__ssize > 0) {
+        strncpy(__s, buffer, __ssize);
+        __s[__ssize - 1] = '\0';
+    }
     return __s;
 }
 
